@@ -3,7 +3,7 @@
 From Coq Require Import Reals Lra Lia List Bool ZArith Psatz.
 From Sdfx Require Import Num.Ops Num.RInst Geo.Vec Geo.Box Geo.BoxR Geo.MinMaxR Geo.NormR Geo.Mat
   Sdf.Union2 Sdf.Shape Sdf.ShapeR Sdf.EncloseR Sdf.EncloseComb Sdf.EncloseXform Sdf.EncloseExtr
-  Sdf.EncloseRev Sdf.EncloseRot Sdf.EncloseSlice Sdf.EncloseCone Sdf.EncloseRigid.
+  Sdf.EncloseRev Sdf.EncloseRot Sdf.EncloseSlice Sdf.EncloseCone Sdf.EncloseRigid Sdf.EncloseBox.
 Import ListNotations.
 Open Scope R_scope.
 
@@ -25,6 +25,7 @@ Definition is_translate3 (m : RM) : Prop := exists v : RV3, m = @mk_translate3d 
 Fixpoint cl2_2 (s : RS2) : Prop :=
   match s with
   | Circle _ => True
+  | Box2D _ round => 0 <= round
   | Intersect2 _ s0 _ | Difference2 _ s0 _ => cl2_2 s0
   | Cut2 s _ _ | ScaleUniform2 s _ | Elongate2 s _ => cl2_2 s
   | Transform2 s m => cl2_2 s /\ rigid33 m
@@ -33,7 +34,7 @@ Fixpoint cl2_2 (s : RS2) : Prop :=
   end.
 Fixpoint cl2_3 (s : RS3) : Prop :=
   match s with
-  | Sphere _ => True
+  | Sphere _ | Box3D _ _ => True
   | Intersect3 _ s0 _ | Difference3 _ s0 _ => cl2_3 s0
   | Cut3 s _ _ | ScaleUniform3 s _ | Elongate3 s _ => cl2_3 s
   | Transform3 s m => cl2_3 s /\ rigid44 m
@@ -228,7 +229,8 @@ Proof.
   - destruct s as [r|size round|l round|s off|m s0 s1|m s0 s1|s a v|s m|s k|mk s nx ny step|mk s num step|s n|s h|mk l|s a n];
       intros o W H; cbn [wf2 build2 cinf2 cl2_2] in *.
     + clear main2 main3. split; [eapply circle_enc, H | split; intros _; [apply lb2_lbinf2|]; eapply circle_lb2, H].
-    + clear main2 main3. destruct W as [Hx Hy]. apply inf_only2. exact (box2_lbinf _ _ _ Hx Hy H).
+    + clear main2 main3. destruct W as [Hx Hy].
+      split; [exact (box2_enc _ _ _ Hx Hy H) | split; [intros _; exact (box2_lbinf _ _ _ Hx Hy H) | intros Hr; exact (box2_lb2 _ _ _ Hx Hy Hr H)]].
     + clear main2 main3. destruct W as [Hl Hr]. apply inf_only2. exact (line2_lbinf _ _ _ Hl Hr H).
     + destruct W as (W & Hoff & Hc). ob H. pose proof (main2 s o1 W Hb) as I. clear main2 main3.
       apply inf_only2. eapply offset2_lbinf; [exact Hoff | exact H | eapply inv2_lbinf; eassumption].
@@ -259,7 +261,7 @@ Proof.
                    |s m|s k|mk l|m s0 s1|m s0 s1|s a n|s h|mk s nx ny nz step|mk s num step|s n|s off|s th];
       intros o W H; cbn [wf3 build3 cinf3 cl2_3] in *.
     + clear main2 main3. split; [eapply sphere_enc, H | split; intros _; [apply lb2_lbinf3|]; eapply sphere_lb2, H].
-    + clear main2 main3. apply inf_only3. eapply box3_lbinf; eassumption.
+    + clear main2 main3. split; [eapply box3_enc, H | split; intros _; [eapply box3_lbinf, H | eapply box3_lb2, H]].
     + clear main2 main3. apply inf_only3. eapply cylinder_lbinf; eassumption.
     + clear main2 main3. destruct W as [H0 H1]. apply enc_only3. exact (cone_enc _ _ _ _ _ H0 H1 H).
     + ob H. pose proof (main2 s o1 W Hb) as I. clear main2 main3.
